@@ -17,6 +17,7 @@ class SemiringGen:
         self.max_operands = max_operands
         self.n_leaves = 0
         self.counter = 0
+        self.shared = []
 
     def choice(self, xs):
         return xs[int(self.rng.integers(len(xs)))]
@@ -46,6 +47,14 @@ class SemiringGen:
         return t
 
     def expr(self, depth):
+        if getattr(self, "shared", None) and self.rng.random() < 0.12:
+            return self.choice(self.shared)  # the same lazy sub-expression used twice (shared binder names)
+        e = self._expr(depth)
+        if e[0] == "red":
+            self.shared.append(e)
+        return e
+
+    def _expr(self, depth):
         if depth <= 0 or self.n_leaves >= self.max_operands or self.rng.random() < 0.15:
             return self.leaf()
         r = self.rng.random()
@@ -82,6 +91,7 @@ class SemiringGen:
 
     def program(self, depth):
         self.n_leaves = 0
+        self.shared = []
         return self.expr(depth)
 
 
